@@ -1779,6 +1779,227 @@ theorem c05_rejoin (s : State) (U : List Nat) (i H c : Nat)
       · rw [hpj j hji, ← hrj j hji] at hk; exact hq.2 j hj r k hk
 
 
+/-! ### `Quiet` holds in every reachable state in which no node is ahead -/
+
+/-- nobody signs beyond its own head + 1: every partial in flight or cached, of signer `k` on round `r`, has
+`r ≤ head k + 1`, and every sleeping catch-up goroutine was launched on a stored round -/
+structure Sane (s : State) : Prop where
+  msgs : ∀ m ∈ s.msgs, m.round ≤ (s.node m.src).head + 1
+  held : ∀ i r k, (s.node i).held r k = true → r ≤ (s.node k).head + 1
+  pend : ∀ i, ∀ r ∈ (s.node i).pending, r ≤ (s.node i).head
+
+/-- node level, against a fixed table `hd` of heads -/
+def SaneN (hd : Nat → Nat) (d : Node) : Prop :=
+  (∀ r k, d.held r k = true → r ≤ hd k + 1) ∧ (∀ r ∈ d.pending, r ≤ d.head)
+
+theorem sane_aggregate {hd : Nat → Nat} {n thr : Nat} {d : Node} (hs : SaneN hd d) (src r : Nat) (hr : r ≤ hd src + 1) :
+    SaneN hd (d.aggregate n thr src r) := by
+  obtain ⟨h1, h2⟩ := hs
+  have hadd : ∀ r' k, addPartial d.held r src r' k = true → r' ≤ hd k + 1 := by
+    intro r' k hk
+    simp only [addPartial, Bool.or_eq_true, Bool.and_eq_true, decide_eq_true_eq] at hk
+    rcases hk with ⟨e1, e2⟩ | hk
+    · subst e1; subst e2; exact hr
+    · exact h1 r' k hk
+  have hfl : ∀ r' k, flush (addPartial d.held r src) r r' k = true → r' ≤ hd k + 1 := by
+    intro r' k hk
+    simp only [flush, Bool.and_eq_true] at hk
+    exact hadd r' k hk.2
+  rcases aggregate_cases n thr d src r with ⟨_, he⟩ | ⟨_, _, he⟩ | ⟨_, _, _, he⟩ | ⟨_, hrr, he⟩ <;> rw [he]
+  · exact ⟨h1, h2⟩
+  · exact ⟨hadd, h2⟩
+  · exact ⟨hfl, h2⟩
+  · split
+    · refine ⟨by simpa using hfl, ?_⟩
+      intro r' hr'
+      simp only [setPending_pending, List.mem_append, List.mem_singleton] at hr'
+      simp only [setPending_head, setHead_head]
+      rcases hr' with hr' | hr'
+      · have := h2 r' hr'; omega
+      · omega
+    · refine ⟨by simpa using hfl, ?_⟩
+      intro r' hr'
+      simp only [setHead_pending, setHeld_pending] at hr'
+      simp only [setHead_head]
+      have := h2 r' hr'; omega
+
+theorem bnpRound_le (c h : Nat) : Gen.bnpRound c h ≤ h + 1 := by
+  unfold Gen.bnpRound; split <;> simp_all
+
+theorem sane_act {s : State} (hs : Sane s) (i : Nat) (F : Node → Node × List Msg)
+    (hN : NExt (s.node i) (F (s.node i)).1)
+    (hd : SaneN (fun k => (s.node k).head) (F (s.node i)).1)
+    (hm : ∀ m ∈ (F (s.node i)).2, m.src = i ∧ m.round ≤ (s.node i).head + 1) : Sane (s.act i F) := by
+  have hmono : ∀ k, (s.node k).head ≤ ((s.act i F).node k).head := (ext_act s i F hN).head
+  refine ⟨?_, ?_, ?_⟩
+  · intro m hmem
+    simp only [act_msgs, List.mem_append] at hmem
+    rcases hmem with hmem | hmem
+    · exact Nat.le_trans (hs.msgs m hmem) (Nat.succ_le_succ (hmono m.src))
+    · have := hm m hmem
+      rw [this.1]
+      exact Nat.le_trans this.2 (Nat.succ_le_succ (hmono i))
+  · intro j r k hk
+    by_cases hj : j = i
+    · subst hj
+      simp only [act_node, if_true] at hk
+      exact Nat.le_trans (hd.1 r k hk) (Nat.succ_le_succ (hmono k))
+    · simp only [act_node, hj, if_false] at hk
+      exact Nat.le_trans (hs.held j r k hk) (Nat.succ_le_succ (hmono k))
+  · intro j r hr
+    by_cases hj : j = i
+    · subst hj
+      simp only [act_node, if_true] at hr ⊢
+      exact hd.2 r hr
+    · simp only [act_node, hj, if_false] at hr ⊢
+      exact hs.pend j r hr
+
+theorem Sane.node {s : State} (hs : Sane s) (i : Nat) : SaneN (fun k => (s.node k).head) (s.node i) :=
+  ⟨fun r k hk => hs.held i r k hk, fun r hr => hs.pend i r hr⟩
+
+theorem sane_tick {s : State} (hs : Sane s) (i : Nat) : Sane (s.tick i) := by
+  apply sane_act hs i _ (next_tickStep _ _ _ _)
+  · unfold Node.tickStep
+    by_cases hu : (s.node i).up = true
+    · simp only [hu, Bool.not_true, Bool.false_eq_true, if_false, Node.broadcast]
+      have h1 : SaneN (fun k => (s.node k).head) (((s.node i).setTick (s.node i).clock).aggregate s.n s.thr i
+          (Gen.bnpRound (s.node i).clock (s.node i).head)) :=
+        sane_aggregate (d := (s.node i).setTick (s.node i).clock) (hs.node i) i _ (bnpRound_le _ _)
+      split
+      · exact h1
+      · exact h1
+    · simp [hu]; exact hs.node i
+  · intro m hm
+    have := tickStep_msgs hm
+    exact ⟨this.2.1, by rw [this.2.2]; exact bnpRound_le _ _⟩
+
+theorem sane_fire {s : State} (hs : Sane s) (i : Nat) : Sane (s.fire i) := by
+  apply sane_act hs i _ (next_fireStep _ _ _ _)
+  · unfold Node.fireStep
+    by_cases hu : (s.node i).up = true
+    · simp only [hu, Bool.not_true, Bool.false_eq_true, if_false]
+      split
+      · exact hs.node i
+      · rename_i r rest hp
+        simp only [Node.broadcast]
+        have hr : r ≤ (s.node i).head := hs.pend i r (by rw [hp]; simp)
+        apply sane_aggregate (d := (s.node i).setPending rest) _ i (r + 1) (by simp; omega)
+        exact ⟨fun r' k hk => hs.held i r' k hk, fun r' hr' => hs.pend i r' (by rw [hp]; simp [show r' ∈ rest from hr'])⟩
+    · simp [hu]; exact hs.node i
+  · intro m hm
+    unfold Node.fireStep at hm
+    by_cases hu : (s.node i).up = true
+    · simp only [hu, Bool.not_true, Bool.false_eq_true, if_false] at hm
+      split at hm
+      · cases hm
+      · rename_i r rest hp
+        have hr : r ≤ (s.node i).head := hs.pend i r (by rw [hp]; simp)
+        have := mem_others.mp hm
+        exact ⟨this.1, by rw [this.2.1]; omega⟩
+    · simp [hu] at hm
+
+theorem sane_recv {s : State} (hs : Sane s) (m : Msg) (hm : m.round ≤ (s.node m.src).head + 1) : Sane (s.recv m) := by
+  apply sane_act hs m.dst _ (next_recvStep _ _ _ _ _)
+  · rcases recvStep_cases s.n s.thr (s.conn m.src m.dst) (s.node m.dst) m with ⟨he, _⟩ | ⟨_, _, _, _, _, he⟩ <;> rw [he]
+    · exact hs.node m.dst
+    · exact sane_aggregate (hs.node m.dst) m.src m.round hm
+  · intro m' hm'; cases hm'
+
+theorem sane_foldl_recv : ∀ (l : List Msg) (s : State), Sane s → (∀ m ∈ l, m.round ≤ (s.node m.src).head + 1) →
+    Sane (l.foldl State.recv s) := by
+  intro l
+  induction l with
+  | nil => intro s hs _; exact hs
+  | cons a t ih =>
+    intro s hs hl
+    simp only [List.foldl_cons]
+    apply ih (s.recv a) (sane_recv hs a (hl a (by simp)))
+    intro m hm
+    exact Nat.le_trans (hl m (by simp [hm])) (Nat.succ_le_succ ((ext_recv s a).head m.src))
+
+theorem sane_setNode {s : State} (hs : Sane s) (i : Nat) (d : Node) (hh : (s.node i).head ≤ d.head)
+    (hheld : ∀ r k, d.held r k = true → (s.node i).held r k = true) (hp : ∀ r ∈ d.pending, r ∈ (s.node i).pending) :
+    Sane (s.setNode i d) := by
+  have hmono : ∀ k, (s.node k).head ≤ ((s.setNode i d).node k).head := by
+    intro k; by_cases hk : k = i
+    · subst hk; simpa using hh
+    · rw [setNode_other _ _ _ _ hk]; exact Nat.le_refl _
+  refine ⟨?_, ?_, ?_⟩
+  · intro m hm
+    exact Nat.le_trans (hs.msgs m hm) (Nat.succ_le_succ (hmono m.src))
+  · intro j r k hk
+    refine Nat.le_trans ?_ (Nat.succ_le_succ (hmono k))
+    by_cases hj : j = i
+    · subst hj; simp only [setNode_same] at hk; exact hs.held j r k (hheld r k hk)
+    · rw [setNode_other _ _ _ _ hj] at hk; exact hs.held j r k hk
+  · intro j r hr
+    by_cases hj : j = i
+    · subst hj; simp only [setNode_same] at hr ⊢; exact Nat.le_trans (hs.pend j r (hp r hr)) hh
+    · rw [setNode_other _ _ _ _ hj] at hr ⊢; exact hs.pend j r hr
+
+theorem sane_pull {s : State} (hs : Sane s) (i : Nat) : Sane (s.pull i) := by
+  rcases pull_cases s i with he | he | ⟨_, hlt, v, he⟩ <;> rw [he]
+  · exact hs
+  · exact sane_setNode hs i _ (Nat.le_refl _) (fun _ _ h => h) (fun _ h => h)
+  · apply sane_setNode hs i
+    · simp only [setSync_head, appendTo_head]; omega
+    · intro r k hk
+      simp only [setSync_held, appendTo_held, Bool.and_eq_true] at hk
+      exact hk.2
+    · intro r hr; simpa using hr
+
+theorem sane_init (n thr : Nat) : Sane (State.init n thr) :=
+  ⟨fun m hm => (by cases hm), fun _ r k hk => (by cases hk), fun _ r hr => (by cases hr)⟩
+
+/-- every event of the step relation keeps `Sane` -/
+theorem sane_apply {s : State} (hs : Sane s) (e : Ev) : Sane (s.apply e) := by
+  cases e with
+  | advance => exact ⟨hs.msgs, hs.held, hs.pend⟩
+  | tick i => exact sane_tick hs i
+  | fire i => exact sane_fire hs i
+  | deliver k =>
+    simp only [State.apply]
+    split
+    · rename_i m hm
+      have hs' : Sane { s with msgs := s.msgs.eraseIdx k } :=
+        ⟨fun m' hm' => hs.msgs m' ((List.eraseIdx_sublist _ _).subset hm'), hs.held, hs.pend⟩
+      exact sane_recv hs' m (hs.msgs m (List.mem_of_getElem? hm))
+    · exact hs
+  | drop k => exact ⟨fun m' hm' => hs.msgs m' ((List.eraseIdx_sublist _ _).subset hm'), hs.held, hs.pend⟩
+  | deliverAll =>
+    have hs' : Sane { s with msgs := [] } := ⟨fun m hm => (by cases hm), hs.held, hs.pend⟩
+    exact sane_foldl_recv s.msgs _ hs' hs.msgs
+  | pull i => exact sane_pull hs i
+  | stop i =>
+    apply sane_setNode hs i
+    · exact Nat.le_refl _
+    · intro r k hk; cases hk
+    · intro r hr; cases hr
+  | restart i =>
+    simp only [State.apply, State.restart]
+    split
+    · exact hs
+    · apply sane_setNode hs i
+      · exact Nat.le_refl _
+      · intro r k hk; cases hk
+      · intro r hr; cases hr
+  | setConn c => exact ⟨hs.msgs, hs.held, hs.pend⟩
+
+theorem sane_run (evs : List Ev) : ∀ (s : State), Sane s → Sane (s.run evs) := by
+  induction evs with
+  | nil => intro s hs; exact hs
+  | cons e t ih => intro s hs; exact ih (s.apply e) (sane_apply hs e)
+
+/-- **`Quiet` from reachability.** After any finite fault script (any list of events from the initial state), if no
+node of the network is ahead of `h`, then no partial for a round above `h + 1` is in flight or cached anywhere: the
+hypothesis `Quiet` of `c05_step_progress` / `c05_rejoin` holds for every `U`. -/
+theorem c05_quiet_of_heads (n thr : Nat) (evs : List Ev) (U : List Nat) (h : Nat)
+    (hh : ∀ k, (((State.init n thr).run evs).node k).head ≤ h) : Quiet ((State.init n thr).run evs) U h := by
+  have hs := sane_run evs _ (sane_init n thr)
+  refine ⟨fun m hm _ _ => ?_, fun j _ r k hk => ?_⟩
+  · have := hs.msgs m hm; have := hh m.src; omega
+  · have := hs.held j r k hk; have := hh k; omega
+
 /-! ### the regenerated rules (go2lean `netrules`) are the ones the statements above were proved for -/
 
 /-- The round arithmetic and guards extracted from the Go source, against what the protocol description says: sign
